@@ -105,6 +105,21 @@ def coqc(path, timeout=600):
     except subprocess.TimeoutExpired:
         return 124, "", "timeout"
 
+def guarded(on_error):
+    """decorator for oracle functions: an exception of the implementation on a generated (legal) input is a failure of the
+    property on that input, reported in the function's own return convention - not a crash of the check"""
+    def deco(f):
+        def g(*a, **k):
+            try:
+                return f(*a, **k)
+            except (KeyboardInterrupt, SystemExit):
+                raise
+            except BaseException as e:
+                return on_error(e, *a, **k)
+        g.__name__ = f.__name__; g.__doc__ = f.__doc__
+        return g
+    return deco
+
 SUMMARY_RE = re.compile(r"=\s*\((\d+)(?:%nat)?,\s*\[(.*?)\]\)", re.S)
 
 def run_case_shards(prop_id, name, header, case_type, check_fn, cases, shard=250, imports="Puan.Plog Puan.Sem Puan.Corr", interner_of=None, timeout=600):
